@@ -63,7 +63,14 @@ def py_eval(e):
     k = e[0]
     if k == "from":
         return Grid.from_positions([float(q) for q in e[1]], [float(q) for q in e[2]])
-    v = py_eval(e[1])
+    return _apply(e, py_eval(e[1]))
+
+
+def _apply(e, v):
+    """apply the outermost operation of `e` to the already evaluated operand `v`"""
+    from kirin.dialects import ilist
+    from bloqade.shuttle.dialects.filled.types import FilledGrid
+    k = e[0]
     if k == "vacate":
         return FilledGrid.vacate(v, ilist.IList([tuple(p) for p in e[2]]))
     if k == "fill":
@@ -85,6 +92,24 @@ def py_eval(e):
             raise TypeError("not filled")
         return v.parent
     raise ValueError(e)
+
+
+def observe(v):
+    """read everything a caller may read from a grid value (fills cached properties)"""
+    _ = (v.positions, v.x_positions, v.y_positions, v.shape, v.width, v.height, hash(v), v == v)
+    try:
+        _ = (v.x_bounds(), v.y_bounds())
+    except ValueError:
+        pass
+    return v
+
+
+def py_eval_observing(e):
+    """as py_eval, but every intermediate value is observed before it is used"""
+    if e[0] == "from":
+        return observe(py_eval(e))
+    inner = py_eval_observing(e[1])
+    return observe(_apply(e, inner))
 
 
 def underlying(v):
@@ -331,6 +356,20 @@ def run(ctx):
                 prev = cur
         except Exception as ex:  # noqa: BLE001
             raise HarnessFault(f"oracle crashed on {sx(e)[:300]}: {type(ex).__name__}: {ex}")
+    # ---- histories: the same chain evaluated step by step on live objects, observing every
+    # intermediate value (positions, shape, bounds, hash, ==) before the next operation; the
+    # final value must equal the one obtained without looking
+    for e, v, i in zip(chains, vals, impls):
+        if v is None or len(steps(e)) < 2:
+            continue
+        try:
+            got = canon_val(py_eval_observing(e))
+        except Exception as ex:  # noqa: BLE001
+            got = "err:" + type(ex).__name__
+        ctx.count("observed_histories")
+        if "ok " + got != i:
+            ctx.fail({"chain": e, "mode": "intermediate values observed before each step"},
+                     f"observing intermediate values changes the result: observed={got[:300]} unobserved={i[:300]}")
     # ---- equality / hash: pairs of chains with the same denotation ----------
     eq_hash(ctx, chains, vals)
     # ---- kernel level: the statements compute what the methods compute ------
